@@ -107,7 +107,7 @@ Bases == <<
   X_Mod(X_Attrs(<<AGI(<<>>)>>),
         <<It("def", X_Enum(NoAttrs, "priv", "E", X_Nm(<<"Base", "<", "T", ">">>),
              <<X_VarEq(AG(<<X_AAs("doc", X_EStr(" d"))>>), "A", X_EInt(NumInt(16)))>>)),
-          It("use", X_Use(<<N1("q")>>)),
+          It("use", X_Use(<<N1("q")>>)), It("use", X_Use(<<N1("q")>>)),     \* the same import twice: both are kept
           It("eval", X_ExtVal(NoAttrs, "pub", "tbl", X_Arr(X_Arr(X_CPtr(X_Nm(N1("void"))), NumInt(2)), NumInt(3)))),
           It("back", X_BackPro("rust", "  use x;  "))>>),
   (* 16: function signatures: no receiver, pointer returns, attributes in two brackets *)
